@@ -215,6 +215,20 @@ def run(ctx):
             if a != b or c != d2 or a != base[(i, 0, "html")] or not same:
                 fail("repeated calls on the same file object differ, or the file changed", {"api": "mammoth.convert_to_html(fileobj) twice", "document": i,
                                                                                               "package": gen_xml.pkg_json(docs[i][0])})
+    # ---- one file OBJECT whose bytes are replaced between conversions: the result is a function of the bytes, not of the object
+    buf = io.BytesIO()
+    for i in list(range(min(ndocs, 6))) + [0]:
+        buf.seek(0)
+        buf.truncate()
+        buf.write(docs[i][1])
+        buf.seek(0)
+        a = digest(_safe(lambda: mammoth.convert_to_html(buf)))
+        ctx.count()
+        dist["reused_fileobj"] = dist.get("reused_fileobj", 0) + 1
+        if a != base[(i, 0, "html")]:
+            fail("a file object that was converted before gives, after its bytes were replaced, another result than its bytes give", {
+                "api": "mammoth.convert_to_html(the same io.BytesIO, rewritten)", "document": i, "package": gen_xml.pkg_json(docs[i][0])})
+            break
     # ---- threads (the interpreter is told to switch threads as often as it can)
     import sys
     old_interval = sys.getswitchinterval()
